@@ -85,3 +85,47 @@ package rotime
 //@   ensures [reads-the-civil-date-and-the-zone-of-the-item|C18] count(call.ANY) == 3 && called(call.Time.Date) && called(call.Time.Location) && called(call.Date) && arg(call.Time.Date, 0) == value && arg(call.Time.Location, 0) == value
 //@   ensures [rebuilds-midnight-of-that-date-in-that-zone|C18] arg(call.Date, 0) == res(call.Time.Date, 0) && arg(call.Date, 1) == res(call.Time.Date, 1) && arg(call.Date, 2) == res(call.Time.Date, 2) && arg(call.Date, 3) == 0 && arg(call.Date, 4) == 0 && arg(call.Date, 5) == 0 && arg(call.Date, 6) == 0 && arg(call.Date, 7) == res(call.Time.Location)
 //@   ensures [returns-its-result|C18] result == res(call.Date)
+
+// The operators themselves: each is one ro.Map / ro.MapErr / ro.Filter around its lambda.
+
+//@ func Add
+//@   note the operator is the lift of its own lambda (Add$1 above) by ro.Map and of nothing else
+//@   props C18
+//@   maypanic
+//@   track call.*
+//@   ensures [is-the-lift-of-its-own-lambda|C18] count(call.ANY) == 1 && called(call.Map)
+
+//@ func AddDate
+//@   note the operator is the lift of its own lambda (AddDate$1 above) by ro.Map and of nothing else
+//@   props C18
+//@   maypanic
+//@   track call.*
+//@   ensures [is-the-lift-of-its-own-lambda|C18] count(call.ANY) == 1 && called(call.Map)
+
+//@ func Format
+//@   note the operator is the lift of its own lambda (Format$1 above) by ro.Map and of nothing else
+//@   props C18
+//@   maypanic
+//@   track call.*
+//@   ensures [is-the-lift-of-its-own-lambda|C18] count(call.ANY) == 1 && called(call.Map)
+
+//@ func In
+//@   note the operator is the lift of its own lambda (In$1 above) by ro.Map and of nothing else
+//@   props C18
+//@   maypanic
+//@   track call.*
+//@   ensures [is-the-lift-of-its-own-lambda|C18] count(call.ANY) == 1 && called(call.Map)
+
+//@ func Parse
+//@   note the operator is the lift of its own lambda (Parse$1 above) by ro.MapErr and of nothing else
+//@   props C18
+//@   maypanic
+//@   track call.*
+//@   ensures [is-the-lift-of-its-own-lambda|C18] count(call.ANY) == 1 && called(call.MapErr)
+
+//@ func ParseInLocation
+//@   note the operator is the lift of its own lambda (ParseInLocation$1 above) by ro.MapErr and of nothing else
+//@   props C18
+//@   maypanic
+//@   track call.*
+//@   ensures [is-the-lift-of-its-own-lambda|C18] count(call.ANY) == 1 && called(call.MapErr)
